@@ -15,7 +15,7 @@ def instances(tier):
         {"label": "fault-at-each-operation", "cfg": PLAIN,
          "consts": dict(HttpItems='HttpAll', Items='C09Items', Cfg='CfgPlain', MaxItems=2, ChunkMax=2,
                         Faults=ALL_FAULTS, NAddr=3, Reacts={"none", "send", "ping", "close"},
-                        ReactAt={"connected", "ready", "text", "ping", "closing"}, MaxReacts=1)},
+                        ReactAt={"connected", "ready", "text", "ping", "closing", "disconnected", "connect_fail"}, MaxReacts=1)},
         {"label": "auto-ping-write-faults", "cfg": TIMERS,
          "consts": dict(HttpItems='HttpOk', Items='C09Items', Cfg='CfgPing', MaxItems=1, ChunkMax=1, MaxIdle=2, Dts={0, 5},
                         Faults={"write_error", "recv_error"}, Reacts={"none"})},
